@@ -307,7 +307,12 @@ def run_k6(chk, prog, files, exceptions, rule="K6", known_fn=None):
             ordinal[what] = k + 1
             n += 1
             chk.analysed(f)
-            cls, capt, detail = classify2(prog, f, c, what, d, n_)
+            from . import memver
+            memver.USE_POINT[0] = c
+            try:
+                cls, capt, detail = classify2(prog, f, c, what, d, n_)
+            finally:
+                memver.USE_POINT[0] = None
             stats[cls] = stats.get(cls, 0) + 1
             inst = "%s:%s#%d" % (f.name, what, k)
             if cls == "X":
